@@ -343,6 +343,51 @@ pub fn space(thorough: bool) -> Vec<Prog> {
             }
         }
     }
+    // repeated (@group, @binding) pairs at every relative position (adjacent, separated by another binding of the
+    // group, by a variable of another group, by an unbound variable). Each variable is used by its own entry point
+    // so that naga's per-entry collision check passes. The generator must refuse these (C11); if a module comes
+    // back it is judged like any other - create_bind_group_layout answers ConflictBinding.
+    let kinds = ["var<uniform>", "var<storage>", "var<storage, read_write>", "var<uniform>"];
+    for len in 2..=4usize {
+        let vals: &[u32] = if len == 4 { &[1, 4, 7, 9] } else { &[1, 4, 7] };
+        let mut seq = vec![0usize; len];
+        loop {
+            let bs: Vec<u32> = seq.iter().map(|i| vals[*i]).collect();
+            let distinct: std::collections::BTreeSet<u32> = bs.iter().copied().collect();
+            if distinct.len() < len {
+                for sep in 0..3 {
+                    let mut src = String::new();
+                    for (i, b) in bs.iter().enumerate() {
+                        if i == 1 && sep == 1 {
+                            src.push_str("@group(1) @binding(0) var<uniform> other_group: vec4<f32>;\n");
+                        }
+                        if i == 1 && sep == 2 {
+                            src.push_str("var<private> unbound_between: vec4<f32>;\n");
+                        }
+                        src.push_str(&format!("@group(0) @binding({b}) {} dup{i}: vec4<f32>;\n", kinds[i]));
+                    }
+                    src.push_str("@vertex fn vs_main() -> @builtin(position) vec4<f32> { return dup0; }\n");
+                    src.push_str("@fragment fn fs_main() -> @location(0) vec4<f32> { return dup1; }\n");
+                    if len > 2 {
+                        src.push_str("@compute @workgroup_size(1) fn cs_main() { dup2 = dup2 + vec4<f32>(1.0); }\n");
+                    }
+                    out.push(Prog { key: format!("dup|bindings={bs:?}|sep={sep}"), src, groups: if sep == 1 { 2 } else { 1 } });
+                }
+            }
+            let mut k = 0;
+            while k < len {
+                seq[k] += 1;
+                if seq[k] < vals.len() {
+                    break;
+                }
+                seq[k] = 0;
+                k += 1;
+            }
+            if k == len {
+                break;
+            }
+        }
+    }
     // visibility is part of the interface check: resources reached through helpers, with the call and the
     // access at every placement context and in every call form (C03's placement space), judged by check_stage
     let (placed, _) = crate::c03::space_b(thorough);
